@@ -150,6 +150,11 @@ def family_plate(fam, n, p, n_exp):
         v = [[cyc[(t + e + p) % 3] * (1.0 + 0.03 * t + 0.01 * e) for e in range(n_exp)] for t in range(n)]
     elif fam == "equalmeans":
         m = [[0.5 + 0.25 * e - 0.1 * p for e in range(n_exp)] for t in range(n)]
+    elif fam in ("large-hi", "large-lo", "large-mixed"):
+        # many experiments per plate, variances at the ends of the six orders of magnitude: a normaliser
+        # formed as a product over experiments leaves the double range, a sum of logs does not
+        base = {"large-hi": (1e3, 3e2), "large-lo": (1e-3, 3e-3), "large-mixed": (1e3, 1e-3)}[fam]
+        v = [[base[(t + e) % 2] * (1.0 + 0.01 * t + 0.001 * e) for e in range(n_exp)] for t in range(n)]
     elif fam == "hugegap":
         m = [[1e4 * (t + 1) * (1.0 + 0.1 * e) + p + ((t * t) % 3) * 3e3 for e in range(n_exp)] for t in range(n)]
         v = [[1e-3 * (1.0 + 0.1 * t + 0.05 * e) for e in range(n_exp)] for t in range(n)]
@@ -311,6 +316,10 @@ def execute(case, chooser):
         cdm = make_distance_matrix(case["D"])
         scorer = G.GaussianDBALScorer(max_chunk=case["max_chunk"], max_triples=case["max_combos"])
         arg = {int(plates[p].plate_id): plates[p] for p in order}
+        if case.get("warm_D") is not None:
+            # the scorer object has been used before, with another distance matrix of the same size
+            scorer.score(plates=arg, distance_matrix=make_distance_matrix(case["warm_D"]), samples=holder,
+                         rng=ScriptedGenerator(Chooser()), progress_bar=False)
         res = scorer.score(plates=arg, distance_matrix=cdm, samples=holder, rng=rng, progress_bar=False)
         ids = [int(plates[p].plate_id) for p in order]
         keys_ok = isinstance(res, dict) and len(res) == len(ids) and sorted(int(k) for k in res) == sorted(ids)
@@ -415,6 +424,11 @@ def plan(tier, seed):
     items = []
     for i in range(27):
         items.append({"kind": "product3", "slice": i})
+    for fam in ("large-hi", "large-lo", "large-mixed"):
+        for n in (3, 4):
+            items.append({"kind": "large", "n": n, "family": fam})
+    for n in tp["ns"][:3]:
+        items.append({"kind": "scorer-reuse", "n": n})
     for n in tp["ns"]:
         for fam in FAMILIES:
             items.append({"kind": "groupings", "n": n, "family": fam})
@@ -492,6 +506,31 @@ def run_item(item, col, tier):
     kind = item["kind"]
     if kind == "product3":
         return _run_product3(item, col)
+    if kind == "large":
+        # plates of 60 and 96 experiments next to a small one, all array entry points and the scorer
+        for sizes in ([60], [96], [96, 2], [3, 60]):
+            base = Base(item["n"], item["family"], sizes)
+            for entry in ENTRIES:
+                for order in ([list(range(len(sizes)))] + ([list(reversed(range(len(sizes))))] if len(sizes) > 1 else [])):
+                    case = base.case(entry, order=order)
+                    check_case(case, col, Chooser(), base.expected(entry), _dims(base, order) | {"large-plate"})
+        col.states += 16
+        return
+    if kind == "scorer-reuse":
+        # one scorer object, two calls with different distance matrices of the same size: the second call is judged
+        for fam in ("graded", "onepair", "extreme"):
+            for sizes in ([2], [1, 3], [2, 2, 1]):
+                base = Base(item["n"], fam, sizes)
+                for warm_fam in ("graded", "onepair", "zerodist"):
+                    warm = family_D(warm_fam, item["n"])
+                    if warm == base.D:
+                        warm = [[0.0 if a == b else 7.0 + a + b for b in range(item["n"])] for a in range(item["n"])]
+                    for mc in (1, 50):
+                        case = base.case("scorer", max_chunk=mc)
+                        case["warm_D"] = warm
+                        check_case(case, col, Chooser(), base.expected("scorer"), _dims(base, case["order"]) | {"scorer-object-reused"})
+                        col.states += 1
+        return
     n, fam = item["n"], item["family"]
     msets = multisets(tp["sizes"], tp["max_plates"])
     sampled = False
